@@ -1265,7 +1265,19 @@ def run_C17(ctx):
                 ops += [{'op': 'reset'}, {'op': 'init', 'pos': spec['init']['pos'], 'speed': spec['init']['speed']}]
             else:
                 ops.append({'op': 'new'})
+        if len(ops) >= 2 and rng.random() < 0.3:
+            # a mating is declared again, word for word, in the middle of the schedule (histories must survive it)
+            cands = [r for k, r in enumerate(spec['rels']) if r[0] in ('gear', 'worm') and not
+                     [q for q in spec['rels'][k + 1:] if q[0] in ('gear', 'worm') and (set(q[1:3]) & set(r[1:3]))]]
+            if cands:
+                ops.insert(rng.randrange(1, len(ops)), {'op': 'redeclare', 'rel': list(rng.choice(cands))})
         spec['ops'] = ops
+        if rng.random() < 0.5:
+            # with a controller (for all runs, or only for some of them)
+            spec['rules'] = gen.const_rules(rng, 16 * dt, random_units=False)
+            for op in ops:
+                if op['op'] == 'run' and rng.random() < 0.25:
+                    op['rules'] = None
         tr, b = sim.simulate(spec)
         case = {'t': 'sim', 'spec': spec}
         if tr['build_error']:
